@@ -324,6 +324,8 @@ m("C08-r2p", "C08", "libwallet/src/slate_versions/v4_bin.rs", "\t\tif self.coms.
 m("C05-r8", "C05", "libwallet/src/api_impl/owner.rs", "\t\t\t\t\t&& o.tx_log_entry == Some(id)\n\t\t\t\t\t&& o.status == OutputStatus::Unconfirmed\n", "\t\t\t\t\t&& o.tx_log_entry == Some(id)\n\t\t\t\t\t&& o.status != OutputStatus::Spent\n", "C05.R8")
 m("C06-r10", "C06", "libwallet/src/internal/tx.rs", "\twallet.store_tx(&format!(\"{}\", tx.tx_slate_id.unwrap()), slate.tx_or_err()?)?;\n", "\tif let Err(e) = wallet.store_tx(&format!(\"{}\", tx.tx_slate_id.unwrap()), slate.tx_or_err()?) {\n\t\twarn!(\"Unable to store finalized transaction {}: {}\", slate.id, e);\n\t}\n", "C06.R10")
 
+m("C02-r8", "C02", "libwallet/src/internal/selection.rs", "\t\t\tif coin.status == OutputStatus::Locked\n\t\t\t\t|| coin.status == OutputStatus::Spent\n\t\t\t\t|| coin.status == OutputStatus::Reverted\n\t\t\t{", "\t\t\tif coin.status == OutputStatus::Spent || coin.status == OutputStatus::Reverted {", "C02.R8")
+
 
 def for_property(prop):
     return [x for x in M if x["property"] == prop]
